@@ -89,6 +89,14 @@ class SccCaptionLine:
 
     self.set_cursor(self._cursor + len(text))
 
+  def backspace(self):
+    """Removes the character before the cursor: the last one of the current text or, if it is empty
+    (e.g. right after a mid-row code), of the closest preceding text that is not"""
+    index = next(i for i, text in enumerate(self._texts) if text is self._current_text)
+    while index > 0 and self._texts[index].is_empty():
+      index -= 1
+    self._texts[index].backspace()
+
   def indent(self, indent: int):
     """Indent current line"""
     self._indent += indent
